@@ -92,33 +92,48 @@ class Check:
         rc, out, err = sh(["coqc", "-Q", COQ, "QV", "-Q", self.dyn, "QD", fname], timeout, cwd=self.dyn)
         return rc == 0, out, err
 
-    def stage_a(self, gen_errors, gen_files, tie_file, props_file, extra_dyn=()):
-        """compile Gen*, Tie*, Props; record one obligation per tie lemma and per theorem"""
+    def stage_a(self, gen_errors, gen_files, tie_file, props_file, extra_dyn=(), tie_text=None):
+        """compile Gen*, the tie lemmas (one by one, in parallel, so that a failure names the lemma),
+        then Tie + Props; record one obligation per tie lemma and per theorem.
+        tie_text: content of the tie file when it is assembled by the check (else coq/Tie/<tie_file>)"""
+        from concurrent.futures import ThreadPoolExecutor
+
         for e in gen_errors:
             self.obligations.append((f"translate:{e.split(':')[0]}", False, e))
-        ok_all = not gen_errors
+        ok_all = True
         for g in gen_files:
             ok, out, err = self.coqc(g)
             if not ok:
                 ok_all = False
                 self.obligations.append((f"compile:{g}", False, err.strip()[-600:]))
-        # tie lemmas: compile one by one so that a failure names the lemma
-        tie_src = open(os.path.join(COQ, "Tie", tie_file)).read()
+        tie_src = tie_text if tie_text is not None else open(os.path.join(COQ, "Tie", tie_file)).read()
+        with open(os.path.join(self.dyn, tie_file), "w") as f:
+            f.write(tie_src)
         header, lemmas = split_lemmas(tie_src)
-        tie_ok = {}
-        for name, text in lemmas:
-            probe = os.path.join(self.dyn, f"probe_{name}.v")
-            with open(probe, "w") as f:
+
+        def probe(item):
+            name, text = item
+            pf = os.path.join(self.dyn, f"probe_{name}.v")
+            with open(pf, "w") as f:
                 f.write(header + text)
-            ok, out, err = self.coqc(os.path.basename(probe), timeout=300)
-            tie_ok[name] = ok
-            self.obligations.append((name, ok, "" if ok else err.strip()[-600:]))
+            ok, out, err = self.coqc(os.path.basename(pf), timeout=300)
             for ext in (".v", ".vo", ".vok", ".vos", ".glob"):
                 try:
-                    os.remove(probe[:-2] + ext)
+                    os.remove(pf[:-2] + ext)
                 except OSError:
                     pass
-        shutil.copy(os.path.join(COQ, "Tie", tie_file), self.dyn)
+            return name, ok, err
+
+        tie_ok = {}
+        if ok_all:
+            with ThreadPoolExecutor(max_workers=12) as ex:
+                for name, ok, err in ex.map(probe, lemmas):
+                    tie_ok[name] = ok
+                    self.obligations.append((name, ok, "" if ok else err.strip()[-600:]))
+        else:
+            for name, _ in lemmas:
+                tie_ok[name] = False
+                self.obligations.append((name, False, "generated file does not compile"))
         for x in extra_dyn:
             shutil.copy(os.path.join(COQ, x), self.dyn)
         shutil.copy(os.path.join(COQ, "Props", props_file), self.dyn)
